@@ -14,6 +14,7 @@ import Ipv8.C13.TableL
 import Ipv8.C13.TableM
 import Ipv8.C13.TableN
 import Ipv8.C13.TableO
+import Ipv8.C13.TableP
 
 namespace Ipv8.C13
 
